@@ -273,8 +273,23 @@ def check(ctx):
                 break
         break
     ctx.require(len(seen_b) >= 2, "interface_thunk: the branches on the kind of the flattened type were not recognised")
+    from ..visitors import _always_exits as _ae19
+    par19 = {c_: p_ for p_ in ast.walk(it.node) for c_ in ast.iter_child_nodes(p_)}
+    after_chain = []
+    if branches:
+        pb19 = par19.get(branches[0])
+        for fld in ("body", "orelse"):
+            lst = getattr(pb19, fld, None)
+            if isinstance(lst, list) and branches[0] in lst:
+                after_chain = lst[lst.index(branches[0]) + 1:]
+
+    def _updates(stmts):
+        return any(isinstance(c, ast.Call) and norm(c.func) == "all_interfaces.update" and c.args and norm(c.args[0]) == "flattened.interfaces" for s_ in stmts for c in ast.walk(s_))
     for test, body in seen_b:
-        closes = any(isinstance(c, ast.Call) and norm(c.func) == "all_interfaces.update" and c.args and norm(c.args[0]) == "flattened.interfaces" for s_ in body for c in ast.walk(s_))
+        if test.startswith("not isinstance(flattened") and _ae19(body):
+            continue      # `elif not isinstance(flattened, <object type>): continue`: neither kind, nothing to propagate
+        # the propagation is in the branch, or shared after the chain by the branches that fall through
+        closes = _updates(body) or (not _ae19(body) and _updates(after_chain))
         ctx.check(closes, "C19.R15", f"{oo.qualname}:{test[:50]}", body[0], f"under `{test}` the interfaces of the flattened type are not propagated: `type Outer implements I2` without I1 when I2 implements I1 is rejected by validate_schema", oo, body[0], detail="all_interfaces.update(flattened.interfaces)")
 
     # ---------------- R16: interfaces are collected among all the ancestors
